@@ -10,6 +10,7 @@ import (
 	"go/constant"
 	"go/token"
 	"go/types"
+	"os"
 	"regexp/syntax"
 	"sort"
 	"strconv"
@@ -35,6 +36,203 @@ type lexState struct {
 	slash   bool // previous byte in code was '/'
 	esc     bool // previous byte in a string/rune was '\'
 	inIdent bool // previous byte in code was an identifier byte
+	// nesting of the emitted code so far: open parentheses, brackets and braces seen in code mode (relative to the
+	// state at which the walk of the current function started)
+	par, brk, brc int
+	tk            tokState
+}
+
+// tokState: the emitted code as a token stream, kept along with the lexical state so that it is path-sensitive like
+// the mode: which identifiers are certainly declared in the emitted function the text is in (a must-set: joins
+// intersect). gentokens.go reads the uses that were seen outside that set.
+type tokState struct {
+	word     string // identifier being read ("\x00" marks a splice inside it)
+	prev     string // the last complete token
+	pend     string // identifiers read since the last other token, comma-separated: a declaration list if `:=` follows
+	pendOpen bool   // the last token was the comma of that list
+	pendDyn  bool   // the last word was a name that depends on the description (`<dyn> :=` declares an unknown name)
+	colon    bool   // the last byte was ':' (a `:=` may follow)
+	efn      string // name of the emitted function the text is in ("" outside)
+	inFn     bool
+	hdr      bool   // in the signature of that function
+	decl     string // "," + identifiers declared so far in that function, each followed by ","
+	dynDecl  bool   // a declaration with a name that depends on the template's own values was emitted: names are not all known
+	maybe    string // ",id@d," : identifiers declared on one way into a join of the template at control depth d and not on the other
+}
+
+// genCtlDepth: the nesting of template control statements (if/switch arms, loop bodies) at the text being fed.
+var genCtlDepth int
+
+func (t tokState) maybeDepth(id string) (int, bool) {
+	i := strings.Index(t.maybe, ","+id+"@")
+	if i < 0 {
+		return 0, false
+	}
+	rest := t.maybe[i+len(id)+2:]
+	j := strings.Index(rest, ",")
+	if j < 0 {
+		return 0, false
+	}
+	d, err := strconv.Atoi(rest[:j])
+	return d, err == nil
+}
+
+// genUseSink receives every identifier use of the emitted code that is not covered by the declarations seen on the
+// path (set by the rule that evaluates them; nil otherwise).
+var genUseSink func(fn, ident, decl string)
+
+func (t tokState) has(id string) bool { return strings.Contains(t.decl, ","+id+",") }
+
+func (t tokState) declare(id string) tokState {
+	if id == "" || id == "_" || t.has(id) {
+		return t
+	}
+	if t.decl == "" {
+		t.decl = ","
+	}
+	t.decl += id + ","
+	return t
+}
+
+func (t tokState) flushPend() tokState {
+	if t.pend != "" && t.inFn && !t.hdr && !t.dynDecl && genUseSink != nil {
+		for _, id := range strings.Split(t.pend, ",") {
+			if id == "" || t.has(id) {
+				continue
+			}
+			if os.Getenv("VLDEBUG") == "g10" {
+				fmt.Fprintf(os.Stderr, "G10 use %s in %q: decl=%s maybe=%s dynDecl=%v ctl=%d\n", id, t.efn, t.decl, t.maybe, t.dynDecl, genCtlDepth)
+			}
+			if d, lost := t.maybeDepth(id); lost {
+				// declared on one way into an earlier join only: a defect if the use stands at the level of that join
+				// (deeper, under a further condition or in a loop, the two conditions may well be the same one)
+				if genCtlDepth == d {
+					genUseSink(t.efn, id, "branch")
+				}
+				continue
+			}
+			genUseSink(t.efn, id, "never")
+		}
+	}
+	t.pend, t.pendOpen = "", false
+	return t
+}
+
+// endWord: an identifier, keyword or number is complete. depth0: at nesting depth 0 of the file.
+func (t tokState) endWord(depth0 bool) tokState {
+	w := t.word
+	t.word = ""
+	if w == "" {
+		return t
+	}
+	if strings.Contains(w, "\x00") {
+		// a name that depends on the description: opaque
+		if t.prev == "var" && t.inFn {
+			t.dynDecl = true
+		}
+		t = t.flushPend()
+		t.prev = "dyn"
+		t.pendDyn = true
+		return t
+	}
+	if w[0] >= '0' && w[0] <= '9' {
+		t = t.flushPend()
+		t.prev = "num"
+		return t
+	}
+	if goKeywordsAndPredeclared[w] {
+		t = t.flushPend()
+		if w == "func" && depth0 {
+			t.inFn, t.hdr, t.efn, t.decl, t.dynDecl, t.maybe = true, true, "", "", false, ""
+			if os.Getenv("VLDEBUG") == "g10" {
+				fmt.Fprintf(os.Stderr, "G10 enter func\n")
+			}
+		}
+		t.prev = w
+		return t
+	}
+	switch {
+	case t.prev == ".":
+		// a member or qualified name
+	case t.prev == "var" && t.inFn:
+		t = t.declare(w)
+	case t.hdr:
+		t = t.declare(w)
+	case t.inFn:
+		if t.pend != "" && !t.pendOpen {
+			t = t.flushPend()
+		}
+		if t.pend != "" {
+			t.pend += ","
+		}
+		t.pend += w
+		t.pendOpen = false
+	}
+	t.prev = w
+	return t
+}
+
+// punct: a byte of code that is not part of a word. before: the nesting before the byte.
+func (t tokState) punct(c byte, par, brc int) tokState {
+	if c == ' ' || c == '\t' || c == '\n' || c == '\r' {
+		return t
+	}
+	if t.colon {
+		t.colon = false
+		if c == '=' {
+			// `a, b := ...`: the pending identifiers are declared
+			if t.inFn && t.prev == "dyn" {
+				t.dynDecl = true
+			}
+			if t.inFn {
+				for _, id := range strings.Split(t.pend, ",") {
+					t = t.declare(id)
+				}
+			}
+			t.pend, t.pendOpen = "", false
+			t.prev = ":="
+			return t
+		}
+		// a plain ':' (label, case, composite literal key): the identifier before a key is not a variable use when it
+		// follows `{` or `,` - too fine to tell here: treat keys as uses only if they are not declared anyway
+		t.pend, t.pendOpen = "", false
+		t.prev = ":"
+	}
+	switch c {
+	case ',':
+		if t.pend != "" && !t.pendOpen {
+			t.pendOpen = true
+			t.prev = ","
+			return t
+		}
+	case ':':
+		t.colon = true
+		return t
+	case '(':
+		if t.hdr && t.efn == "" && par == 0 && t.prev != "func" && t.prev != "" {
+			t.efn = t.prev
+		}
+	case '{':
+		if t.hdr && par == 0 {
+			t.hdr = false
+		}
+	case '}':
+		if os.Getenv("VLDEBUG") == "g10" && t.inFn && brc <= 2 {
+			fmt.Fprintf(os.Stderr, "G10 close brace in %q brc=%d par=%d hdr=%v decl=%s\n", t.efn, brc, par, t.hdr, t.decl)
+		}
+		if t.inFn && !t.hdr && brc == 1 && par == 0 {
+			t = t.flushPend()
+			t.inFn, t.efn, t.decl = false, "", ""
+		}
+	}
+	t = t.flushPend()
+	t.prev = string(c)
+	return t
+}
+
+// desc: the mode and nesting of a state, for messages.
+func (l lexState) desc() string {
+	return fmt.Sprintf("%s, nesting ( %d [ %d { %d", lexModeName[l.m], l.par, l.brk, l.brc)
 }
 
 func isIdentByte(c byte) bool {
@@ -44,6 +242,20 @@ func isIdentByte(c byte) bool {
 func (l lexState) feed(c byte) lexState {
 	switch l.m {
 	case lmCode:
+		if isIdentByte(c) {
+			if l.tk.colon {
+				l.tk.colon, l.tk.prev = false, ":" // the ':' of a case, a label or a key: not the start of `:=`
+			}
+			l.tk.word += string(c)
+		} else {
+			l.tk = l.tk.endWord(l.brc == 0 && l.par == 0)
+			if c != '/' && c != '"' && c != '`' && c != '\'' {
+				l.tk = l.tk.punct(c, l.par, l.brc)
+			} else if c != '/' {
+				l.tk = l.tk.flushPend()
+				l.tk.prev = "lit"
+			}
+		}
 		sl := l.slash
 		l.slash = false
 		l.inIdent = isIdentByte(c)
@@ -58,6 +270,18 @@ func (l lexState) feed(c byte) lexState {
 			l.m = lmStr
 		case c == '\'':
 			l.m = lmRune
+		case c == '(':
+			l.par++
+		case c == ')':
+			l.par--
+		case c == '[':
+			l.brk++
+		case c == ']':
+			l.brk--
+		case c == '{':
+			l.brc++
+		case c == '}':
+			l.brc--
 		}
 	case lmLineComment:
 		if c == '\n' {
@@ -223,6 +447,70 @@ type genWalker struct {
 	// the elements, in order): a range over such a parameter is walked once per element
 	boundLists map[types.Object]bool
 	prewalking map[*ast.FuncDecl]bool
+	// UndeclUses: per emitted function, the identifiers used on some path of the template on which no declaration of
+	// them had been emitted before in that function (tokState; package-level names are filtered by the rule)
+	UndeclUses map[string]map[string]bool
+	condDecl   map[string][]string   // emitted function | list expression -> identifiers declared only under `len(list) > 0`
+	onStack    map[*ast.FuncDecl]int // emitters being walked (recursion)
+	altFeed    int                   // > 0 while the alternatives of a branch-assigned value are fed
+	loopExits  []loopExit            // per enclosing template loop: the states at its `continue` and `break` statements
+	inSwitch   bool                  // inside a switch of the template (a `break` leaves the switch, not the loop)
+}
+
+type loopExit struct{ conts, breaks []lexState }
+
+// loop walks the body of a template loop from state lb (l: the state in front of the loop). Every way through the body -
+// falling off its end or `continue` - must leave the output as it found it; `break` states meet the state behind the loop.
+func (a *genWalker) loop(x ast.Node, body []ast.Stmt, l, lb lexState, rets *[]lexState) lexState {
+	a.loopExits = append(a.loopExits, loopExit{})
+	saveSw := a.inSwitch
+	a.inSwitch = false
+	o, dead := a.branch(body, lb, rets)
+	a.inSwitch = saveSw
+	ex := a.loopExits[len(a.loopExits)-1]
+	a.loopExits = a.loopExits[:len(a.loopExits)-1]
+	ends := ex.conts
+	if !dead {
+		ends = append(ends, o)
+	}
+	j := l
+	for _, e := range ends {
+		var ok bool
+		if j, ok = joinLex(j, e); !ok {
+			a.problem(x, fmt.Sprintf("loop body changes the lexical mode or the nesting depth of the output (%s -> %s)", l.desc(), e.desc()))
+		}
+	}
+	for _, e := range ex.breaks {
+		var ok bool
+		if j, ok = joinLex(j, e); !ok {
+			a.problem(x, fmt.Sprintf("a `break` leaves the loop with the output in another lexical mode or at another nesting depth (%s vs %s)", j.desc(), e.desc()))
+		}
+	}
+	return j
+}
+
+// lenPositive: cond is `len(X) > 0`, `len(X) != 0` or `len(X) >= 1`; returns X.
+func lenPositive(cond ast.Expr) ast.Expr {
+	be, ok := cond.(*ast.BinaryExpr)
+	if !ok {
+		return nil
+	}
+	call, ok := be.X.(*ast.CallExpr)
+	if !ok || len(call.Args) != 1 {
+		return nil
+	}
+	if id, ok := call.Fun.(*ast.Ident); !ok || id.Name != "len" {
+		return nil
+	}
+	lit, ok := be.Y.(*ast.BasicLit)
+	if !ok {
+		return nil
+	}
+	switch {
+	case (be.Op == token.GTR || be.Op == token.NEQ) && lit.Value == "0", be.Op == token.GEQ && lit.Value == "1":
+		return call.Args[0]
+	}
+	return nil
 }
 
 type genProblem struct {
@@ -806,6 +1094,7 @@ func (a *genWalker) feedDyn(l lexState, d *genDyn, at ast.Node, prev, next strin
 		}
 		l.inIdent = true
 		l.slash = false
+		l.tk.word += "\x00" // (part of) a name that depends on the description
 	case lmStr:
 		if b := bad(union, func(c byte) bool { return c == '"' || c == '\\' || c == '\n' }); b != "" {
 			fail("spliced inside an interpreted string literal but may contain " + b)
@@ -1001,6 +1290,10 @@ func (a *genWalker) feedPieces(l lexState, ps []genPiece, e ast.Expr) lexState {
 			a.flushSeg()
 		case p.oneOf != nil:
 			var out lexState
+			// (a value chosen in a branch of the template - `arg := "nil"; if ... { arg = "in" }` - is correlated with
+			// what that branch declared: its identifiers are not judged)
+			a.altFeed++
+			defer func() { a.altFeed-- }()
 			for k, alt := range p.oneOf {
 				o := a.feedPieces(l, alt, e)
 				if k == 0 {
@@ -1011,7 +1304,15 @@ func (a *genWalker) feedPieces(l lexState, ps []genPiece, e ast.Expr) lexState {
 					a.problem(e, "the alternative values of a local leave the output in different lexical modes")
 				}
 			}
-			l = out
+			{
+				// as a token the chosen value is an unknown name
+				tk := l.tk
+				l = out
+				if l.m == lmCode && tk.inFn == out.tk.inFn && tk.efn == out.tk.efn {
+					l.tk = tk
+					l.tk.word += "\x00"
+				}
+			}
 		case p.group != nil:
 			out := l
 			for _, el := range p.group.elems {
@@ -1045,7 +1346,16 @@ func (a *genWalker) feedPieces(l lexState, ps []genPiece, e ast.Expr) lexState {
 			for _, alt := range p.alts {
 				a.Frags = append(a.Frags, genFrag{e.Pos(), a.curFn, alt, l})
 			}
-			l = l.feedStr(p.alts[0])
+			{
+				// one of several constants (a parameter bound at several call sites, a table value): for the lexical
+				// mode any of them will do (they were checked to agree), as a token it is an unknown name
+				tk := l.tk
+				l = l.feedStr(p.alts[0])
+				l.tk = tk
+				if l.m == lmCode {
+					l.tk.word += "\x00"
+				}
+			}
 		default:
 			a.Frags = append(a.Frags, genFrag{e.Pos(), a.curFn, p.konst, l})
 			l = l.feedStr(p.konst)
@@ -1239,6 +1549,8 @@ func isBufferType(t types.Type) bool {
 func (a *genWalker) branch(list []ast.Stmt, l lexState, rets *[]lexState) (lexState, bool) {
 	a.flushSeg()
 	defer a.flushSeg()
+	genCtlDepth++
+	defer func() { genCtlDepth-- }()
 	return a.stmts(list, l, rets)
 }
 
@@ -1258,9 +1570,65 @@ func joinLex(x, y lexState) (lexState, bool) {
 	if x.m != y.m || x.esc != y.esc {
 		return x, false
 	}
+	if x.par != y.par || x.brk != y.brk || x.brc != y.brc {
+		return x, false // the ways into this point have emitted different numbers of ( [ { ) ] }
+	}
 	x.inIdent = x.inIdent || y.inIdent
 	x.slash = x.slash || y.slash
+	x.tk = joinTok(x.tk, y.tk)
 	return x, true
+}
+
+// joinTok: what is known on both ways.
+func joinTok(x, y tokState) tokState {
+	if x == y {
+		return x
+	}
+	out := x
+	if x.efn != y.efn || x.inFn != y.inFn || x.hdr != y.hdr {
+		if os.Getenv("VLDEBUG") == "g10" {
+			fmt.Fprintf(os.Stderr, "G10 join reset: %q/%v/%v vs %q/%v/%v\n", x.efn, x.inFn, x.hdr, y.efn, y.inFn, y.hdr)
+		}
+		return tokState{}
+	}
+	if x.word != y.word || x.pend != y.pend || x.pendOpen != y.pendOpen || x.colon != y.colon {
+		out.word, out.pend, out.pendOpen, out.colon = "", "", false, false
+	}
+	if x.prev != y.prev {
+		out.prev = "?"
+	}
+	// declared on both ways
+	d := ""
+	for _, id := range strings.Split(x.decl, ",") {
+		if id != "" && y.has(id) {
+			if d == "" {
+				d = ","
+			}
+			d += id + ","
+		}
+	}
+	out.decl = d
+	out.dynDecl = x.dynDecl || y.dynDecl
+	mb := x.maybe
+	if mb == "" {
+		mb = y.maybe
+	} else if y.maybe != "" && y.maybe != x.maybe {
+		mb = x.maybe + strings.TrimPrefix(y.maybe, ",")
+	}
+	for _, pr := range [][2]tokState{{x, y}, {y, x}} {
+		for _, id := range strings.Split(pr[0].decl, ",") {
+			if id != "" && !pr[1].has(id) {
+				if _, seen := (tokState{maybe: mb}).maybeDepth(id); !seen {
+					if mb == "" {
+						mb = ","
+					}
+					mb += fmt.Sprintf("%s@%d,", id, genCtlDepth)
+				}
+			}
+		}
+	}
+	out.maybe = mb
+	return out
 }
 
 func (a *genWalker) flushSeg() {
@@ -1567,14 +1935,30 @@ func (a *genWalker) stmt(s ast.Stmt, l lexState, rets *[]lexState) (lexState, bo
 		case elseDead:
 			return thenL, false
 		}
+		// what only the `len(X) > 0` branch declares in the emitted function is declared wherever the template later
+		// ranges over X (the loop body runs only for a non-empty X)
+		if lx := lenPositive(x.Cond); lx != nil && thenL.tk.efn == elseL.tk.efn && thenL.tk.inFn {
+			key := thenL.tk.efn + "|" + types.ExprString(lx)
+			for _, id := range strings.Split(thenL.tk.decl, ",") {
+				if id != "" && !elseL.tk.has(id) {
+					if a.condDecl == nil {
+						a.condDecl = map[string][]string{}
+					}
+					a.condDecl[key] = append(a.condDecl[key], id)
+				}
+			}
+		}
 		j, ok := joinLex(thenL, elseL)
 		if !ok {
-			a.problem(x, fmt.Sprintf("branches leave the output in different lexical modes (%s vs %s): an unbalanced quote in the template", lexModeName[thenL.m], lexModeName[elseL.m]))
+			a.problem(x, fmt.Sprintf("branches leave the output in different lexical modes or at different nesting depths (%s vs %s): an unbalanced quote, parenthesis or brace in the template", thenL.desc(), elseL.desc()))
 		}
 		return j, false
 	case *ast.SwitchStmt:
 		var outs []lexState
 		hasDefault := false
+		saveSw := a.inSwitch
+		a.inSwitch = true
+		defer func() { a.inSwitch = saveSw }()
 		for _, c := range x.Body.List {
 			cc := c.(*ast.CaseClause)
 			if cc.List == nil {
@@ -1595,7 +1979,7 @@ func (a *genWalker) stmt(s ast.Stmt, l lexState, rets *[]lexState) (lexState, bo
 		for _, o := range outs[1:] {
 			var ok bool
 			if j, ok = joinLex(j, o); !ok {
-				a.problem(x, "switch arms leave the output in different lexical modes")
+				a.problem(x, "switch arms leave the output in different lexical modes or at different nesting depths")
 			}
 		}
 		return j, false
@@ -1621,19 +2005,28 @@ func (a *genWalker) stmt(s ast.Stmt, l lexState, rets *[]lexState) (lexState, bo
 				return l, false
 			}
 		}
-		o, _ := a.branch(x.Body.List, l, rets)
-		j, ok := joinLex(l, o)
-		if !ok {
-			a.problem(x, fmt.Sprintf("loop body changes the lexical mode of the output (%s -> %s)", lexModeName[l.m], lexModeName[o.m]))
+		lb := l
+		for _, id := range a.condDecl[l.tk.efn+"|"+types.ExprString(x.X)] {
+			lb.tk = lb.tk.declare(id)
 		}
-		return j, false
+		return a.loop(x, x.Body.List, l, lb, rets), false
 	case *ast.ForStmt:
-		o, _ := a.branch(x.Body.List, l, rets)
-		j, ok := joinLex(l, o)
-		if !ok {
-			a.problem(x, fmt.Sprintf("loop body changes the lexical mode of the output (%s -> %s)", lexModeName[l.m], lexModeName[o.m]))
+		return a.loop(x, x.Body.List, l, l, rets), false
+	case *ast.BranchStmt:
+		// continue / break of a template loop: this way through the body ends here; its state meets the others at the
+		// end of the body (continue) or behind the loop (break)
+		if n := len(a.loopExits); n > 0 && x.Label == nil {
+			switch x.Tok {
+			case token.CONTINUE:
+				a.loopExits[n-1].conts = append(a.loopExits[n-1].conts, l)
+				return l, true
+			case token.BREAK:
+				if !a.inSwitch {
+					a.loopExits[n-1].breaks = append(a.loopExits[n-1].breaks, l)
+					return l, true
+				}
+			}
 		}
-		return j, false
 	case *ast.ReturnStmt:
 		for _, res := range x.Results {
 			a.recordStateFields(nil, res) // `return &generator{pkg: name, ...}` of a constructor
@@ -1986,21 +2379,36 @@ func (a *genWalker) callFn(fd *ast.FuncDecl, l lexState, at ast.Node) lexState {
 			for _, r := range rets[1:] {
 				var ok bool
 				if j, ok = joinLex(j, r); !ok {
-					a.problem(fd, fd.Name.Name+" returns with the output in different lexical modes")
+					a.problem(fd, fd.Name.Name+" returns with the output in different lexical modes or at different nesting depths")
 				}
 			}
 			return j
 		}
 	}
 	key := fmt.Sprintf("%s|%v|%v", fd.Name.Name, l.m, l.esc)
-	if out, ok := a.memo[key]; ok {
+	// (the memo answers recursive calls - the type writer calling itself - and calls made while a value is evaluated;
+	// a helper called again from the template is walked again, so that the text it writes is seen at every call)
+	if out, ok := a.memo[key]; ok && (a.onStack[fd] > 0 || a.evalDepth > 0) {
+		// (the memo holds the nesting relative to the entry state)
+		out.par, out.brk, out.brc = out.par+l.par, out.brk+l.brk, out.brc+l.brc
+		out.tk = l.tk // (the token context is the caller's: the helper's text - a type expression - was cut into tokens when it was first walked)
+		out.tk.word = ""
 		return out
 	}
-	a.memo[key] = l // coinductive assumption for recursion: returns in the entry mode (validated below)
+	{
+		z := l
+		z.par, z.brk, z.brc = 0, 0, 0
+		a.memo[key] = z // coinductive assumption for recursion: returns in the entry mode and at the entry depth (validated below)
+	}
 	save, saveDecl := a.curFn, a.curDecl
 	a.curFn, a.curDecl = fd.Name.Name, fd
+	if a.onStack == nil {
+		a.onStack = map[*ast.FuncDecl]int{}
+	}
+	a.onStack[fd]++
 	var rets []lexState
 	out, dead := a.stmts(fd.Body.List, l, &rets)
+	a.onStack[fd]--
 	a.curFn, a.curDecl = save, saveDecl
 	if !dead {
 		rets = append(rets, out)
@@ -2012,14 +2420,18 @@ func (a *genWalker) callFn(fd *ast.FuncDecl, l lexState, at ast.Node) lexState {
 	for _, r := range rets[1:] {
 		var ok bool
 		if j, ok = joinLex(j, r); !ok {
-			a.problem(fd, fd.Name.Name+" returns with the output in different lexical modes")
+			a.problem(fd, fd.Name.Name+" returns with the output in different lexical modes or at different nesting depths")
 		}
 	}
 	if j.m != l.m {
 		// exit mode differs from the assumption used for recursive calls
 		a.problem(fd, fd.Name.Name+" does not preserve the lexical mode of the output ("+lexModeName[l.m]+" -> "+lexModeName[j.m]+")")
 	}
-	a.memo[key] = j
+	{
+		rel := j
+		rel.par, rel.brk, rel.brc = j.par-l.par, j.brk-l.brk, j.brc-l.brc
+		a.memo[key] = rel
+	}
 	return j
 }
 
@@ -2056,8 +2468,21 @@ func RunGenWalker(p *Prog, m *idlModel, root string) (*genWalker, lexState, stri
 		a.locals, a.kwSafe, a.memo = map[types.Object]ast.Expr{}, map[types.Object]bool{}, map[string]lexState{}
 		a.sliceElems = map[types.Object][]ast.Expr{}
 		a.curFn, a.lastConst = root, ""
+		a.UndeclUses = map[string]map[string]bool{}
+		a.condDecl = nil
+		genCtlDepth = 0
+		genUseSink = func(fn, ident, kind string) {
+			if a.evalDepth > 0 || a.altFeed > 0 {
+				return
+			}
+			if a.UndeclUses[fn] == nil {
+				a.UndeclUses[fn] = map[string]bool{}
+			}
+			a.UndeclUses[fn][ident+"|"+kind] = true
+		}
 		var rets []lexState
 		end, _ = a.stmts(gt.Body.List, lexState{}, &rets)
+		genUseSink = nil
 		if !a.changed {
 			break
 		}
